@@ -165,7 +165,7 @@ PROPS["C02"] = {
 }
 
 PROPS["C16"] = {
-    "module": "Matreex.Props.C16", "harness": "C16",
+    "module": "Matreex.Props.C16", "harness": "C16", "extra_modules": ["Matreex.Lemmas.BridgeT16"],
     "level_text": "PARTIAL. Machine-checked Lean 4 theorems about a split-tree model of rayon's indexed producers: for EVERY binary split tree (every thread-pool size, every division of work) par_map / par_map_ref return exactly what map returns (same CapacityOverflow cases, shape, order, contents), the indexed iterators yield exactly the sequential (index, element) items with the regenerated Index::from_flattened, the leaves partition the work, every interleaving of the leaves' calls is a permutation of the sequential call list (exactly once per element) and par_apply's final memory equals the sequential one on every interleaving; plus theorems over the table of parallel.rs wrapper forms regenerated from the source on every run. "
                   "Tied to the implementation by runs on real rayon pools of 1..32 threads with per-element run-time jitter, shapes from empty to 100200 elements, invocation counters and the set of worker threads observed. "
                   "Not exhibited by the model: rayon itself (its scheduler, work stealing, the unsafe collect into uninitialised memory, panic propagation) — the theorems assume rayon honours the IndexedParallelIterator / Producer contract stated in Model/Par.lean; the runs sample real schedules but cannot enumerate them.",
